@@ -411,7 +411,76 @@ class _Func:
         self.closure = closure
 
     def __call__(self, *args, **kwargs):
+        if isinstance(self.node, ast.FunctionDef) and "contextmanager" in {
+                txt(d).split(".")[-1] for d in self.node.decorator_list}:
+            return _GenContext(self, args, kwargs)
         return self.mini.call(self.node, args, kwargs, closure=self.closure)
+
+
+class _GenContext:
+    """context manager made from a generator function
+    (``@contextlib.contextmanager``): the function runs up to its ``yield``
+    on entry and is resumed on exit (the interpreter is recursive, so the
+    generator runs in a helper thread that strictly alternates with the
+    caller)"""
+
+    def __init__(self, fn, args, kwargs):
+        self.fn, self.args, self.kwargs = fn, args, kwargs
+
+    def __enter__(self):
+        import queue
+        import threading
+        self.to_caller = queue.Queue()
+        self.to_gen = queue.Queue()
+
+        def hook(v):
+            self.to_caller.put(("yield", v))
+            self.to_gen.get()
+
+        def run():
+            try:
+                self.fn.mini.call(self.fn.node, self.args, self.kwargs,
+                                  closure=self.fn.closure, cm_hook=hook)
+                self.to_caller.put(("done", None))
+            except BaseException as e:     # handed over to the caller
+                self.to_caller.put(("error", e))
+        self.thread = threading.Thread(target=run, daemon=True)
+        self.thread.start()
+        kind, v = self.to_caller.get()
+        if kind == "error":
+            raise v
+        if kind == "done":
+            raise ModelFault("generator of a context manager did not yield")
+        return v
+
+    def __exit__(self, *a):
+        self.to_gen.put(None)
+        kind, v = self.to_caller.get()
+        self.thread.join()
+        if kind == "error":
+            raise v
+        if kind == "yield":
+            raise ModelFault("generator of a context manager yielded twice")
+
+
+class ModuleNS:
+    """a module of the repository used as a namespace (``common.f(...)``):
+    names the harness models itself come from `overrides`, every other
+    name is resolved by its definition in the parsed module (through an
+    interpreter bound to that module)"""
+
+    def __init__(self, mini, overrides=None, label="module"):
+        self.__dict__["_mini"] = mini
+        self.__dict__["_label"] = label
+        self.__dict__.update(overrides or {})
+
+    def __getattr__(self, item):
+        if item.startswith("__"):
+            raise AttributeError(item)
+        g = self._mini.g
+        if item in g:
+            return g[item]
+        raise MiniError(f"module `{self._label}` defines no `{item}`")
 
 
 def _decorators(fn):
@@ -711,7 +780,7 @@ class Mini:
                 pass
 
     # ------------------------------------------------------------------
-    def call(self, func, args=(), kwargs=None, closure=None):
+    def call(self, func, args=(), kwargs=None, closure=None, cm_hook=None):
         kwargs = dict(kwargs or {})
         a = func.args
         if a.vararg or a.kwarg:
@@ -767,6 +836,8 @@ class Mini:
             elif isinstance(n, (ast.FunctionDef,)) and n is not func:
                 locals_.add(n.name)
         env["__yields__"] = [] if is_gen else None
+        if cm_hook is not None:
+            env["__cm_hook__"] = cm_hook
         try:
             self.block(func.body, env, locals_)
             ret = None
@@ -1095,6 +1166,11 @@ class Mini:
             if env.get("__yields__") is None:
                 raise MiniError("yield outside a generator")
             v = None if e.value is None else self.expr(e.value, env, loc)
+            if env.get("__cm_hook__") is not None:
+                # generator of a @contextmanager: hand the value to the
+                # `with` statement and wait until its body is done
+                env["__cm_hook__"](v)
+                return None
             env["__yields__"].append(snapshot(v))
             return None
         if isinstance(e, ast.YieldFrom):
